@@ -23,6 +23,8 @@ import (
 	"github.com/EdgeCast/vflow/ipfix"
 )
 
+var vJSONBuf = new(bytes.Buffer)
+
 type vMsg struct {
 	Exp []int `json:"exp"`
 	Buf []int `json:"buf"`
@@ -241,7 +243,8 @@ func vRunMsg(cache MemCache, m vMsg, wantJSON, measure bool) (res vRes) {
 	}
 	if wantJSON {
 		// what the worker does with a decoded message (vflow/netflow_v9.go)
-		b, jerr := msg.JSONMarshal(new(bytes.Buffer))
+		vJSONBuf.Reset() // one encode buffer for the life of the process, reset before every message: what the workers do
+		b, jerr := msg.JSONMarshal(vJSONBuf)
 		if jerr != nil {
 			res.JErr = jerr.Error()
 		} else {
